@@ -12,7 +12,8 @@
 //! * anything else -- the *test binary / setup script*: `--list` prints the scenario's test
 //!   names in libtest's terse format; otherwise one JSON line with argv, cwd, pid, ppid, pgid,
 //!   the target of fd 0 and the environment is printed and, if `C15_LOG` is set, appended to
-//!   that file; the exit code is 1 for a test listed in the scenario's `fail_first_attempt`
+//!   that file; a setup script (`--script ...`) writes the scenario's `script_env` to
+//!   `$NEXTEST_ENV`; the exit code is 1 for a test listed in the scenario's `fail_first_attempt`
 //!   while `__NEXTEST_ATTEMPT` is 1, else 0.
 use camino::Utf8PathBuf;
 use cargo_nextest::{CargoNextestApp, OutputWriter};
@@ -115,7 +116,16 @@ fn test_binary(args: Vec<String>) -> ! {
             let _ = f.write_all(line.as_bytes());
         }
     }
-    // NEXTEST_ENV handling for setup scripts: nothing to write
+    // a setup script (argv[1] == "--script") writes the scenario's `script_env` pairs to $NEXTEST_ENV
+    if args.get(1).map(String::as_str) == Some("--script") {
+        if let (Some(sc), Some(path)) = (&sc, std::env::var_os("NEXTEST_ENV")) {
+            let mut out = String::new();
+            for p in sc["script_env"].as_array().map(|a| a.as_slice()).unwrap_or(&[]) {
+                out.push_str(&format!("{}={}\n", p[0].as_str().unwrap(), p[1].as_str().unwrap()));
+            }
+            let _ = std::fs::write(path, out);
+        }
+    }
     let attempt = std::env::var("__NEXTEST_ATTEMPT").unwrap_or_default();
     let name = args
         .iter()
